@@ -1,7 +1,6 @@
 package keeper
 
 import (
-	"bytes"
 	"context"
 	"errors"
 	"fmt"
@@ -23,7 +22,7 @@ import (
 // 3. Calculates the commission for the reporter and the net reward after commission.
 // 4. Retrieves the selectors' addresses and their respective shares.
 // 5. Distributes the net reward among the selectors based on their shares.
-// 6. Adds the commission to the reporter's share if the reporter is also a selector.
+// 6. Adds the commission to the reporter's tips, once.
 // 7. Updates the selectors' tips with the new calculated shares.
 func (k Keeper) DivvyingTips(ctx context.Context, reporterAddr sdk.AccAddress, reward math.LegacyDec, queryId []byte, height uint64) error {
 	reporter, err := k.Reporters.Get(ctx, reporterAddr)
@@ -47,28 +46,31 @@ func (k Keeper) DivvyingTips(ctx context.Context, reporterAddr sdk.AccAddress, r
 		delTotalDec := delAddrs.Total.ToLegacyDec()
 		delegatorShare := netReward.Mul(delAmountDec).Quo(delTotalDec)
 
-		if bytes.Equal(del.DelegatorAddress, reporterAddr.Bytes()) {
-			delegatorShare = delegatorShare.Add(commission)
-		}
-		// get selector's previous tips
-		oldTips, err := k.SelectorTips.Get(ctx, del.DelegatorAddress)
-		if err != nil {
-			if errors.Is(err, collections.ErrNotFound) {
-				oldTips = math.LegacyZeroDec()
-			} else {
-				return err
-			}
-		}
-		// add the new tip to the old tips
-		newTips := oldTips.Add(delegatorShare)
-		// set new tip total
-		err = k.SelectorTips.Set(ctx, del.DelegatorAddress, newTips)
-		if err != nil {
+		if err := k.addSelectorTips(ctx, del.DelegatorAddress, delegatorShare); err != nil {
 			return err
 		}
 	}
-
+	// the commission is credited to the reporter once per reward, not once per
+	// (selector, validator) origin: a reporter staked with several validators has several origins
+	if !commission.IsZero() {
+		return k.addSelectorTips(ctx, reporterAddr.Bytes(), commission)
+	}
 	return nil
+}
+
+// addSelectorTips adds amount to the tips a selector has accumulated
+func (k Keeper) addSelectorTips(ctx context.Context, selector []byte, amount math.LegacyDec) error {
+	// get selector's previous tips
+	oldTips, err := k.SelectorTips.Get(ctx, selector)
+	if err != nil {
+		if errors.Is(err, collections.ErrNotFound) {
+			oldTips = math.LegacyZeroDec()
+		} else {
+			return err
+		}
+	}
+	// add the new tip to the old tips and set new tip total
+	return k.SelectorTips.Set(ctx, selector, oldTips.Add(amount))
 }
 
 // ReturnSlashedTokens returns the slashed tokens to the delegators,
